@@ -191,7 +191,20 @@ func (c *Ctx) ruleSubAckShape(rr *RuleRep) {
 				return
 			}
 		}
-		rr.OK("subscribeImpl/copy-back", st.Pos(), "subs[i].QoS = QoS(subAck.Codes[i]) with the same index, from 0")
+		// executed for every index: no path from the index increment round the loop that skips the store
+		if phi, ok := ia.Index.(*ssa.Phi); ok {
+			hdr := phi.Block()
+			if iff := blockIf(hdr); iff != nil && len(hdr.Succs[0].Instrs) > 0 {
+				first := hdr.Succs[0].Instrs[0]
+				if first != ssa.Instruction(st) {
+					if _, skip := CanReach(f, first, func(x ssa.Instruction) bool { return x.Block() == hdr || realExit(x) }, PathQ{BlockInstr: func(x ssa.Instruction) bool { return x == ssa.Instruction(st) }}); skip {
+						rr.Bad("subscribeImpl/copy-back", st.Pos(), "the granted QoS is copied back only under an additional condition: some return codes (e.g. the failure code 0x80) are not reported to the caller")
+						return
+					}
+				}
+			}
+		}
+		rr.OK("subscribeImpl/copy-back", st.Pos(), "subs[i].QoS = QoS(subAck.Codes[i]) with the same index, from 0, for every index")
 	})
 	if nCopy == 0 {
 		rr.Bad("subscribeImpl/copy-back", f.Pos(), "granted QoS values are not copied back into the returned subscriptions")
